@@ -110,6 +110,18 @@ pub fn exec(it: &mut Interp, toks: &[&str], out: &mut Vec<String>) -> bool {
             }
             true
         }
+        ["bigfan", n, seed] => {
+            // implementation-vs-oracle only: a term with more than 65 535 direct parents (the count
+            // fields of the file format are u32), through an independently encoded file and through
+            // the crate's own bytes
+            let (Ok(n), Ok(seed)) = (n.parse::<u32>(), seed.parse::<u64>()) else { return false };
+            match std::panic::catch_unwind(|| big_fan(n, seed)) {
+                Ok(Ok(())) => out.push("oracle ok".to_string()),
+                Ok(Err(e)) => out.push(format!("oracle FAIL bigfan: {e}")),
+                Err(_) => out.push("oracle FAIL bigfan: panic".to_string()),
+            }
+            true
+        }
         ["clone", a, bb] => {
             // `Ontology::clone()`: the copy answers every query like the original
             let (Ok(a), Ok(bb)) = (a.parse::<u32>(), bb.parse::<u32>()) else { return false };
@@ -477,6 +489,78 @@ fn big_arena(n: u32, seed: u64) -> Result<(), String> {
     if r.ok() != Some(ids.len()) {
         return Err("iterating the clone panics or yields another number of terms".to_string());
     }
+    Ok(())
+}
+
+/// HP:1 <- HP:118 <- `p` terms <- Z <- W, one record of every kind on Z, W and all `p` terms
+fn big_fan(p: u32, seed: u64) -> Result<(), String> {
+    use crate::enc::{encode, RawFacts, RawRec, RawTerm};
+    let mut rng = crate::rng::Rng::new(seed);
+    let mut ids: BTreeSet<u32> = BTreeSet::new();
+    while (ids.len() as u32) < p + 2 {
+        let id = 2 + rng.below(9_999_990) as u32;
+        if id != 118 {
+            ids.insert(id);
+        }
+    }
+    let mut all: Vec<u32> = ids.iter().copied().collect();
+    // Z and W somewhere in the middle of the id range
+    let z = all.remove(all.len() / 2);
+    let w = all.remove(all.len() / 3);
+    let mids = all; // ascending
+    let mut f = RawFacts { version: (2024, 1, 1), ..Default::default() };
+    for id in [1u32, 118].iter().chain(mids.iter()).chain([z, w].iter()) {
+        f.terms.push(RawTerm { id: *id, name: format!("t{id}"), obsolete: false, replacement: None });
+    }
+    f.parents.push((118, vec![1]));
+    for m in &mids {
+        f.parents.push((*m, vec![118]));
+    }
+    f.parents.push((z, mids.clone()));
+    f.parents.push((w, vec![z]));
+    let mut rec_terms = mids.clone();
+    rec_terms.push(z);
+    rec_terms.push(w);
+    rec_terms.sort_unstable();
+    for k in 0..3 {
+        f.recs[k].push(RawRec { id: 7, name: "R7".to_string(), terms: rec_terms.clone() });
+    }
+    let check = |o: &Ontology, what: &str| -> Result<(), String> {
+        let tz = o.hpo(z).ok_or(format!("{what}: Z missing"))?;
+        let tw = o.hpo(w).ok_or(format!("{what}: W missing"))?;
+        let pz: Vec<u32> = tz.parent_ids().iter().map(|x| x.as_u32()).collect();
+        if pz != mids {
+            return Err(format!("{what}: Z has {} direct parents, expected {}", pz.len(), mids.len()));
+        }
+        let az = tz.all_parent_ids().len();
+        let aw = tw.all_parent_ids().len();
+        if az != mids.len() + 2 || aw != mids.len() + 3 {
+            return Err(format!("{what}: Z has {az} ancestors, W {aw}; expected {} and {}", mids.len() + 2, mids.len() + 3));
+        }
+        let c118 = o.hpo(118u32).ok_or("118 missing")?.children_ids().len();
+        if c118 != mids.len() {
+            return Err(format!("{what}: HP:118 has {c118} children, expected {}", mids.len()));
+        }
+        if o.len() != mids.len() + 4 {
+            return Err(format!("{what}: {} terms, expected {}", o.len(), mids.len() + 4));
+        }
+        use hpo::annotations::Disease;
+        let g = o.gene(&hpo::annotations::GeneId::from(7u32)).ok_or(format!("{what}: gene 7 missing"))?;
+        let d = o.omim_disease(&hpo::annotations::OmimDiseaseId::from(7u32)).ok_or(format!("{what}: OMIM 7 missing"))?;
+        let r = o.orpha_disease(&hpo::annotations::OrphaDiseaseId::from(7u32)).ok_or(format!("{what}: ORPHA 7 missing"))?;
+        for n in [g.hpo_terms().len(), d.hpo_terms().len(), r.hpo_terms().len()] {
+            if n != rec_terms.len() {
+                return Err(format!("{what}: a record lists {n} terms, expected {}", rec_terms.len()));
+            }
+        }
+        Ok(())
+    };
+    let bytes = encode(&f, 3);
+    let o = Ontology::from_bytes(&bytes).map_err(|e| format!("from_bytes of the independently encoded file: {e}"))?;
+    check(&o, "decoded")?;
+    let again = o.as_bytes();
+    let re = Ontology::from_bytes(&again).map_err(|e| format!("from_bytes(as_bytes): {e}"))?;
+    check(&re, "reloaded")?;
     Ok(())
 }
 
